@@ -7,23 +7,12 @@
     This file is extracted to OCaml (checker/) and is also evaluated inside Coq by
     [vm_compute] for the extraction self-check.  All values are integers ([Z]):
     [-1] = None, [-2] = the call panicked, booleans 0/1. *)
-From Verif Require Import Base.Prelude Model.ShortMsg Model.PerChannel Model.CC14 Model.Nrpn
-  Model.Polling Spec.MidiTable Spec.ScannerSpec Spec.CC14Spec Spec.NrpnSpec Spec.PollMonitor Spec.ConstSpec
+From Verif Require Import Base.Prelude Base.Enc Spec.ShortMsgObs Model.ShortMsg Model.PerChannel Model.Factory Model.CC14
+  Model.Nrpn Model.Polling Spec.Canon Spec.MidiTable Spec.ScannerSpec Spec.CC14Spec Spec.NrpnSpec Spec.PollMonitor Spec.ConstSpec
   Generated.CtrlConsts.
 Open Scope Z_scope.
 
 Record verdict : Type := mkV { v_agree : bool; v_holds : bool; v_model : list Z }.
-
-Definition ZNONE : Z := -1.
-Definition ZPANIC : Z := -2.
-
-Definition zN (n : N) : Z := Z.of_N n.
-Definition zb (b : bool) : Z := if b then 1 else 0.
-Definition zopt (o : option N) : Z := match o with Some n => zN n | None => ZNONE end.
-Definition nz (z : Z) : N := Z.to_N z.
-
-Definition enc_bytes (b : bytes) : list Z :=
-  let '(s, a, c) := b in [zN s; zN a; zN c].
 
 Definition enc_cc14 (o : option cc14msg) : list Z :=
   match o with
@@ -57,6 +46,151 @@ Fixpoint dec_cc14ops (l : list Z) : list cc14op :=
       (if Z.eqb k 2 then CReset else CFeed (op_bytes k a b c)) :: dec_cc14ops t
   | _ => []
   end.
+
+(** * short messages: C01 / C02 / C03 / C06 (encoders in Spec/ShortMsgObs.v) *)
+(** tag 10: from_bytes for every factory implementation *)
+Definition model_10 (k : Z) (b : bytes) : list Z :=
+  let fb := if Z.eqb k 1 then from_bytes (fun x => omap struct_tb (struct_fbu x)) b
+            else from_bytes raw_fbu b in
+  match fb with
+  | Ok (Some r) => 1 :: enc_bytes r
+  | Ok None => [0; ZNONE; ZNONE; ZNONE]
+  | Panic => [ZPANIC]
+  end.
+Definition spec_10 (k : Z) (b : bytes) : list Z :=
+  let '(s, a, c) := b in
+  if N.leb 128 s then 1 :: enc_bytes (if Z.eqb k 1 then canon b else b)
+  else [0; ZNONE; ZNONE; ZNONE].
+
+(** tag 11: a StructuredShortMessage value: its bytes; back from bytes; via raw; to_structured *)
+Definition model_11 (m : structured) : list Z :=
+  let b := struct_tb m in
+  enc_bytes b ++
+  [zo (fun m' => zb (listZ_eqb (enc_struct m') (enc_struct m))) (struct_of_bytes b);
+   zo (fun m' => zb (listZ_eqb (enc_struct m') (enc_struct m))) (raw_ts (raw_tb b));
+   zo (fun m' => zb (listZ_eqb (enc_struct m') (enc_struct m))) (struct_ts m)].
+Definition struct_layout (m : structured) : bytes :=
+  match m with
+  | SNoteOff ch a b => (128 + ch, a, b)
+  | SNoteOn ch a b => (144 + ch, a, b)
+  | SPolyphonicKeyPressure ch a b => (160 + ch, a, b)
+  | SControlChange ch a b => (176 + ch, a, b)
+  | SProgramChange ch a => (192 + ch, a, 0)
+  | SChannelPressure ch a => (208 + ch, a, 0)
+  | SPitchBendChange ch v => (224 + ch, v mod 128, v / 128)
+  | SSystemExclusiveStart => (240, 0, 0)
+  | STimeCodeQuarterFrame f =>
+      (241,
+       match f with
+       | FrameCountLsNibble v => v
+       | FrameCountMsNibble v => 16 + v
+       | SecondsCountLsNibble v => 32 + v
+       | SecondsCountMsNibble v => 48 + v
+       | MinutesCountLsNibble v => 64 + v
+       | MinutesCountMsNibble v => 80 + v
+       | HoursCountLsNibble v => 96 + v
+       | TcLast b t => 112 + 2 * tct_code t + (if b then 1 else 0)
+       end, 0)
+  | SSongPositionPointer p => (242, p mod 128, p / 128)
+  | SSongSelect n => (243, n, 0)
+  | STuneRequest => (246, 0, 0)
+  | SSystemExclusiveEnd => (247, 0, 0)
+  | STimingClock => (248, 0, 0)
+  | SStart => (250, 0, 0)
+  | SContinue => (251, 0, 0)
+  | SStop => (252, 0, 0)
+  | SActiveSensing => (254, 0, 0)
+  | SSystemReset => (255, 0, 0)
+  | SSystemCommonUndefined1 => (244, 0, 0)
+  | SSystemCommonUndefined2 => (245, 0, 0)
+  | SSystemRealTimeUndefined1 => (249, 0, 0)
+  | SSystemRealTimeUndefined2 => (253, 0, 0)
+  end%N.
+Definition spec_11 (m : structured) : list Z := enc_bytes (struct_layout m) ++ [1; 1; 1].
+
+(** tag 12: U7 -> TimeCodeQuarterFrame -> U7 *)
+Definition model_12 (a : N) : list Z :=
+  match tcqf_of_u7 a with
+  | Ok f => enc_tcqf f ++ [zN (u7_of_tcqf f)]
+  | Panic => [ZPANIC]
+  end.
+Definition spec_12 (a : N) : list Z :=
+  (if N.ltb (a / 16) 7 then [zN (a / 16); zN (a mod 16); 0]
+   else [7; zN (a mod 2); zN ((a / 2) mod 4)]) ++ [zN (canon_qf a)].
+
+(** tag 13: u8 -> ShortMessageType -> u8 *)
+Definition model_13 (b : N) : list Z :=
+  match smt_of_code b with Some t => [1; zN (smt_code t)] | None => [0; ZNONE] end.
+Definition spec_13 (b : N) : list Z :=
+  if (N.leb 240 b && N.ltb b 256) || (N.leb 128 b && N.ltb b 240 && N.eqb (b mod 16) 0)
+  then [1; zN b] else [0; ZNONE].
+
+(** tag 30: build as kind k1, convert to kind k2 (conv 0: to_other, 1: from_other,
+    2: to_structured); observe accessors and bytes of both *)
+Definition model_30 (k1 k2 : Z) (b : bytes) : list Z :=
+  match kind_bytes k1 b with
+  | Ok b1 =>
+      match kind_bytes k2 b1 with
+      | Ok b2 => acc_obs_kind k1 b ++ enc_bytes b1 ++ acc_obs_kind k2 b1 ++ enc_bytes b2
+      | Panic => [ZPANIC]
+      end
+  | Panic => [ZPANIC]
+  end.
+Definition spec_30 (k1 k2 : Z) (b : bytes) : list Z :=
+  let b1 := if Z.eqb k1 1 then canon b else b in
+  let b2 := if Z.eqb k2 1 then canon b1 else b1 in
+  acc_spec b ++ enc_bytes b1 ++ acc_spec b ++ enc_bytes b2.
+
+(** tag 60: named constructors for implementation k; bytes and accessors *)
+Definition model_60 (k : Z) (idx x y z : N) : list Z :=
+  let r := if N.eqb idx 8 then ctor_tcqf (kind_bytes k) x else ctor (kind_bytes k) idx x y z in
+  match r with
+  | Ok b => enc_bytes b ++ acc_obs_kind k b
+  | Panic => [ZPANIC]
+  end.
+Definition spec_60 (k : Z) (idx x y z : N) : list Z :=
+  let l := ctor_layout idx x y z in
+  let b := if Z.eqb k 1 then canon l else l in
+  enc_bytes b ++ acc_spec l.
+
+(** tag 61: generic constructors (which 0: channel, 1: system common, 2: system real time) *)
+Definition model_61 (k which : Z) (code ch a c : N) : list Z :=
+  match smt_of_code code with
+  | None => bad_record.(v_model)
+  | Some t =>
+      let r := if Z.eqb which 0 then channel_message (kind_bytes k) t ch a c
+               else if Z.eqb which 1 then system_common_message (kind_bytes k) t a c
+               else system_real_time_message (kind_bytes k) t in
+      match r with Ok b => enc_bytes b | Panic => [ZPANIC] end
+  end.
+Definition spec_61 (k which : Z) (code ch a c : N) : list Z :=
+  let cat_ok :=
+    if Z.eqb which 0 then N.ltb code 240
+    else if Z.eqb which 1 then N.leb 241 code && N.leb code 247
+    else N.leb 248 code in
+  if cat_ok then
+    let l := if Z.eqb which 0 then ((code + ch)%N, a, c) else if Z.eqb which 1 then (code, a, c)
+             else (code, 0%N, 0%N) in
+    enc_bytes (if Z.eqb k 1 then canon l else l)
+  else [ZPANIC].
+
+(** tag 62: test_util shorthands with primitive (possibly out-of-range) arguments;
+    idx 100 = short(status, d1, d2) *)
+Definition model_62 (idx x y z : N) : list Z :=
+  match (if N.eqb idx 100 then tu_short x y z else tu_ctor idx x y z) with
+  | Ok b => enc_bytes b
+  | Panic => [ZPANIC]
+  end.
+Definition spec_62 (idx x y z : N) : list Z :=
+  if N.eqb idx 100 then
+    if N.leb 128 x && N.ltb x 256 && N.ltb y 128 && N.ltb z 128 then enc_bytes (x, y, z) else [ZPANIC]
+  else
+    let '(mx, my, mz) := ctor_arg_max idx in
+    let n := ctor_arity idx in
+    if (Nat.ltb 0 n && N.ltb mx x) || (Nat.ltb 1 n && N.ltb my y) || (Nat.ltb 2 n && N.ltb mz z)
+    then [ZPANIC]
+    else enc_bytes (ctor_layout idx (if Nat.ltb 0 n then x else 0) (if Nat.ltb 1 n then y else 0)
+                                 (if Nat.ltb 2 n then z else 0))%N.
 
 (** * C07 / C08 *)
 Definition outs_or_panic {S A} (r : outcome (S * list A)) (enc : A -> list Z) : list Z :=
@@ -521,6 +655,39 @@ Definition check_170 (kind : Z) (timeout : N) (ops1 ops2 obs : list Z) : verdict
 
 Definition check (tag : Z) (inp obs : list Z) : verdict :=
   match tag, inp with
+  | 10, [k; s0; a; c] => verdict_of obs (model_10 k (nz s0, nz a, nz c)) (spec_10 k (nz s0, nz a, nz c))
+  | 11, [v; x; y; z] => verdict_of obs (model_11 (dec_struct v x y z)) (spec_11 (dec_struct v x y z))
+  | 12, [a] => verdict_of obs (model_12 (nz a)) (spec_12 (nz a))
+  | 13, [b] => verdict_of obs (model_13 (nz b)) (spec_13 (nz b))
+  | 20, [k; s0; a; c] => verdict_of obs (acc_obs_kind k (nz s0, nz a, nz c)) (acc_spec (nz s0, nz a, nz c))
+  | 30, [k1; k2; conv; s0; a; c] =>
+      (* C03 is about the implementations agreeing with *each other*: the two accessor lists
+         must be equal and the bytes may differ only by canonicalisation *)
+      let b := (nz s0, nz a, nz c) in
+      let model := model_30 k1 k2 b in
+      let acc1 := firstn 20 obs in
+      let by1 := firstn 3 (skipn 20 obs) in
+      let acc2 := firstn 20 (skipn 23 obs) in
+      let by2 := skipn 43 obs in
+      let b1 := if Z.eqb k1 1 then canon b else b in
+      let b2 := if Z.eqb k2 1 then canon b1 else b1 in
+      mkV (listZ_eqb obs model)
+          (Nat.eqb (length obs) 46 && negb (existsb (Z.eqb ZPANIC) obs) && listZ_eqb acc1 acc2 &&
+           listZ_eqb by1 (enc_bytes b1) && listZ_eqb by2 (enc_bytes b2))
+          model
+  | 60, [k; idx; x; y; z] =>
+      (* C06: bytes and the accessors naming type, channel and fields; the super type
+         (position 4 of the observation) belongs to C02 *)
+      let mask := fun l : list Z => firstn 4 l ++ [0] ++ skipn 5 l in
+      let model := model_60 k (nz idx) (nz x) (nz y) (nz z) in
+      mkV (listZ_eqb obs model)
+          (listZ_eqb (mask obs) (mask (spec_60 k (nz idx) (nz x) (nz y) (nz z))))
+          model
+  | 61, [k; which; code; ch; a; c] =>
+      verdict_of obs (model_61 k which (nz code) (nz ch) (nz a) (nz c))
+        (spec_61 k which (nz code) (nz ch) (nz a) (nz c))
+  | 62, [idx; x; y; z] =>
+      verdict_of obs (model_62 (nz idx) (nz x) (nz y) (nz z)) (spec_62 (nz idx) (nz x) (nz y) (nz z))
   | 70, [ch; cn; v] => verdict_of obs (model_70 (nz ch) (nz cn) (nz v)) (spec_70 (nz ch) (nz cn) (nz v))
   | 71, ch :: cn :: v :: k :: prior =>
       verdict_of obs (model_71 (nz ch) (nz cn) (nz v) k (dec_cc14ops prior))
